@@ -351,7 +351,7 @@ def unit_cases(ctx, replay):
                 c["mode"], (top, rest), other, (top2, rest2)),
                 case=dict(c, rung=[[t, repr(v)] for t, v in c["rung"]]),
                 signature=dict(function="get_top_list", defect="mode_asymmetry"))
-        terms.append("(%s, %s, %s, %s, %s)" % (
+        terms.append("((%s, %s, %s, %s, %s) : top_case)" % (
             lst(["(%s, %s)" % (zlit(t), "None" if math.isnan(v) else "Some %s" % q(v)) for t, v in rung]),
             natlit(c["new_len"]), blit(c["mode"] == "min"), lst([zlit(t) for t in top]), lst([zlit(t) for t in rest])))
     if terms:
@@ -391,7 +391,7 @@ def unit_cases(ctx, replay):
         if decs[0] != decs[1]:
             ctx.violation("property", "MedianStoppingRule decisions differ between mode %s on f and the other mode on -f" % c["mode"],
                           case=c, signature=dict(scheduler="MedianStoppingRule", defect="mode_asymmetry"))
-        terms.append("(%s, %s, %s, %s, %s, %s)" % (
+        terms.append("((%s, %s, %s, %s, %s, %s) : msr_case)" % (
             blit(c["mode"] == "min"), blit(c["running_average"]), optlit(c["grace_time"], q),
             optlit(c["grace_population"], natlit), q(c["rank_cutoff"]),
             lst(["(%s, %s, %s, %s)" % (zlit(t), zlit(r), q(m), blit(d)) for (t, r, m), d in zip(c["evs"], decs[0])])))
@@ -441,7 +441,7 @@ def unit_cases(ctx, replay):
             if o is None:
                 return "None"
             return "(Some (%s, %s))" % (zlit(o[0]), "None" if math.isinf(o[1]) else "Some %s" % q(o[1]))
-        terms.append("(%s, %s, %s)" % (blit(c["mode"] in ("min", None)),
+        terms.append("((%s, %s, %s) : best_case)" % (blit(c["mode"] in ("min", None)),
                                        lst(["(%s, %s)" % (zlit(t), lst([q(v) for v in vals])) for t, vals in c["table"]]),
                                        best_lit(o1)))
     if terms:
